@@ -784,6 +784,12 @@ func (r *Room) PublishUsersInCallChanged(changed []map[string]interface{}, users
 
 		if inCall {
 			r.mu.Lock()
+			if _, found := r.sessions[session.PublicId()]; !found {
+				// Only sessions in this room can be in the call, other entries
+				// would never be removed again.
+				r.mu.Unlock()
+				continue
+			}
 			if !r.inCallSessions[session] {
 				r.inCallSessions[session] = true
 				log.Printf("Session %s joined call %s", session.PublicId(), r.id)
@@ -982,7 +988,7 @@ func (r *Room) NotifySessionChanged(session Session, flags SessionChangeFlag) {
 			switch joinLeave {
 			case 1:
 				r.mu.Lock()
-				if !r.inCallSessions[session] {
+				if _, found := r.sessions[session.PublicId()]; found && !r.inCallSessions[session] {
 					r.inCallSessions[session] = true
 					log.Printf("Session %s joined call %s", session.PublicId(), r.id)
 				}
